@@ -51,6 +51,8 @@ EXTRA_STATIC = [
     # an array whose length an earlier declaration fixed, defined with [] and fewer initialisers than elements
     'extern int es124[5]; int es124[] = { 1, 2 };', 'extern char es125[16]; char es125[] = "hi";', 'int es126[4]; int es126[] = { 7 }; int es127 = sizeof es126;',
     'extern struct { int a; } es128dummy; extern long es128[3][2]; long es128[][2] = { { 1 } }; int es129 = sizeof es128;', 'static short es130[6]; static short es130[] = { [1] = 5 }; short *es131 = es130;',
+    'typedef int ES132T[]; extern ES132T es132, es133; ES132T es132 = { 1, 2, 3 }, es133 = { 7 }; int es134 = sizeof es133;', 'static __typeof__(int[]) es135, es136; static __typeof__(int[]) es135 = { 1, 2, 3, 4 }, es136 = { 9, 8 }; int *es137[] = { es135, es136 };',
+    'struct { unsigned short h[8]; char c[8]; unsigned w[6]; } es138 = { .h = u"ab", .h[3] = 9, .c = "hi", .c[3] = 1, .w = U"q", .w[2] = 5 };', 'struct { char c[4]; int k; } es139 = { .c = "", .c[1] = 2, .k = 3 };',
     'struct { unsigned w[10]; int k; } es101 = { .w = U"xyz", .w[8] = 5, .k = 1 };', 'struct { unsigned short h[9]; } es102 = { .h = u"ab", .h[7] = 9, .h[3] = 1 };', "struct { char c[12]; } es103 = { .c = \"hi\", .c[11] = 'z' };",
     # designators that pass through anonymous members, followed by positional initialisers
     'struct { int a; struct { int b, c; }; int d; int e; } es81 = { .b = 1, 2, 3 };', 'struct { int a; struct { int b, c; }; int d; int e; } es82 = { 5, .c = 1, 3 };',
